@@ -46,12 +46,13 @@ type lkEp struct {
 	dirty   bool // force / expiry / deletion / fault happened: the mutual-exclusion hypothesis is off
 	early   []string
 	failKey string
+	dead    bool
 }
 
 func (e *lkEp) key(i int) string { return fmt.Sprintf("rueidislock:%d:L", i) }
 
 func (e *lkEp) close() {
-	if e.srv == nil {
+	if e.srv == nil || e.dead {
 		return
 	}
 	for _, c := range e.cancels {
@@ -137,9 +138,13 @@ func (e *lkEp) state(c *Ctx, line string) string {
 }
 
 func (e *lkEp) op(c *Ctx, line string) {
+	if e.dead {
+		return // the real code hung earlier in this run: nothing after that is meaningful
+	}
 	w := strings.Fields(line)
 	emit := func() {
 		if !settle() {
+			e.dead = true
 			c.Emit(line, "not-quiescent", true)
 			return
 		}
@@ -221,6 +226,7 @@ func (e *lkEp) op(c *Ctx, line string) {
 				ctx, cancel, err = l.TryWithContext(bg, "L")
 			}
 		}) {
+			e.dead = true
 			c.Emit(line, "hang", true)
 			return
 		}
@@ -265,6 +271,7 @@ func (e *lkEp) op(c *Ctx, line string) {
 			return
 		}
 		if !watchdog(h.cancel) {
+			e.dead = true
 			c.Emit(line, "hang", true)
 			return
 		}
